@@ -177,7 +177,7 @@ PROPS["C11"] = dict(
           "themes with short walks, terminal and clock>=99 positions with budgets far beyond 65536 polls; sub-strata "
           "with a non-empty ThreeFold history and positional evaluation; distinct_nontrivial = distinct positions "
           "searched (each with its whole k sweep)"),
-    floor=dict(any={"evaluations": 20000, "k-sweep-exhaustive-to-T2": 20, "terminal-position": 2, "traced-searches": 500, "traced-log-bytes": 1000000, "engine-reuse-searches": 2000,
+    floor=dict(any={"evaluations": 20000, "k-sweep-exhaustive-to-T2": 20, "terminal-position": 2, "traced-searches": 500, "traced-log-bytes": 1000000, "engine-reuse-searches": 2000, "wall-clock-limit-searches": 300,
                     "long-run-on-trivial-passes": 5, "non-empty-threefold-history": 10,
                     "expiry-phase:pass0:captures:in-recursion": 50, "expiry-phase:pass0:quiets:root-level": 50,
                     "expiry-phase:pass1:prev-best:in-recursion": 50, "expiry-phase:pass2:quiets:in-recursion": 50,
